@@ -120,7 +120,7 @@ def gen_trace(recipe):
       d = int(rng.integers(1, 9))
       k = int(rng.integers(0, 3)) if d > 1 else 0
       Vs, s2 = givens_product(rng, d, k) if d > 1 else (np.array([[1]], dtype=object), 1)
-      kind = str(rng.choice(['pd', 'psd_singular', 'indefinite', 'near_psd_tol', 'outside_tol', 'diag', 'diag_near_psd', 'nonsym', 'wide']))
+      kind = str(rng.choice(['pd', 'psd_singular', 'indefinite', 'near_psd_tol', 'outside_tol', 'diag', 'diag_near_psd', 'diag_zero_tol', 'nonsym', 'wide']))
       mag = float(2.0 ** int(rng.integers(-20, 21)))
       w = [float(rng.integers(1, 2000)) * mag for _ in range(d)]
       tol = None
@@ -148,6 +148,13 @@ def gen_trace(recipe):
           w[int(rng.integers(d))] = -tol / 16.0
         else:
           w[int(rng.integers(d))] = -float(max(w)) * 2.0 ** -60        # far inside the default tolerance d * eps * max
+      elif kind == 'diag_zero_tol':
+        # an explicit tolerance of exactly ZERO (0.0 or the integer 0): a diagonal matrix with one entry at -2^-60 of the
+        # largest is then NOT positive semi-definite (its eigenvalues are its entries, exactly), a PSD one still is
+        Vs, s2 = np.array([[1 if i == j else 0 for j in range(d)] for i in range(d)], dtype=object), 1
+        tol = [0.0, 0][int(rng.integers(2))]
+        if rng.random() < 0.7:
+          w[int(rng.integers(d))] = -float(max(w)) * 2.0 ** -60
       elif kind == 'nonsym':
         nonsym = d > 1
       elif kind == 'wide':
@@ -263,6 +270,25 @@ def gen_trace(recipe):
           ev['cand_pca'] = dym(call('pca', hc)[1])
           if hc and k <= min(d, ncls - 1):
             ev['cand_lda'] = dym(call('lda', hc)[1])
+          events.append(ev)
+      # WIDE data (fewer samples than features): the 'auto' rule compares n_components with min(n_features, n_samples)
+      nw = int(rng.integers(4, 8))
+      dw = nw + int(rng.integers(1, 4))
+      Xw = gen.grid(rng.normal(size=(nw, dw)) + np.repeat(np.eye(2, dw) * 3.0, [nw // 2, nw - nw // 2], axis=0))
+      yw = np.repeat([0, 1], [nw // 2, nw - nw // 2])
+      for k in range(1, nw + 1):
+        def callw(init, hc=True):
+          return outcome_of(lambda: _initialize_components(k, Xw, yw if hc else None, init, random_state=seed, has_classes=hc))
+        for hc in (True, False):
+          out, L = callw('auto', hc)
+          ev = {'ev': 'InitComponents', 'k': k, 'd': dw, 'n': nw, 'ncls': 2, 'has_classes': hc, 'L2': [], 'arr': [], 'arr_class': '',
+                'cand_lda': [], 'cand_pca': [], 'cand_identity': [], 'init': 'auto', 'outcome': out, 'L': dym(L) if L is not None else []}
+          ci, cp = callw('identity', hc)[1], callw('pca', hc)[1]
+          ev['cand_identity'] = dym(ci) if ci is not None else []
+          ev['cand_pca'] = dym(cp) if cp is not None else []
+          if hc and k <= 1:
+            cl = callw('lda', hc)[1]
+            ev['cand_lda'] = dym(cl) if cl is not None else []
           events.append(ev)
       k = int(rng.integers(1, d + 1))
       arr = gen.grid(rng.normal(size=(k, d)))
